@@ -326,6 +326,15 @@ func (fv *FV) applyContract(st *State, fc *FuncContract, key string, names []str
 		}
 	}
 	env.st = st
+	// ghost-exit assignments of the callee: the ghost global has the stated value afterwards
+	for _, ga := range fc.GhostExit {
+		if ga.LHS.Op == "id" {
+			if cur, ok := st.ghost[ga.LHS.Name]; ok {
+				rhs := fv.evalSpec(ga.RHS, env)
+				st.assume(fmt.Sprintf("(= %s %s)", cur.T, rhs.T))
+			}
+		}
+	}
 	for _, e := range fc.Ensures {
 		func() {
 			defer func() {
